@@ -12,24 +12,24 @@ set_option linter.unusedSectionVars false
 section
 variable {κ δ ε : Type} [DecidableEq κ] [DecidableEq δ] [DecidableEq ε]
 
-theorem rel_init (be : Backend) (E : Enc κ δ ε) (kindOf : Nat → Kind) :
-    Rel be E kindOf {} (Spec.init : Spec κ δ ε) := by
+theorem rel_init (be : Backend) (E : Enc κ δ ε) :
+    Rel be E {} (Spec.init : Spec κ δ ε) := by
   refine ⟨?_, ⟨?_, ?_, ?_⟩, ?_, ?_, ?_, ?_⟩
-  · intro id n h; simp at h
-  · intro c d k _; simp [Disk.col, Spec.init]
-  · intro c _ x; simp [Disk.col, Spec.init, akeys]
+  · intro id kind n h; simp at h
+  · intro c d k; simp [Disk.col, Spec.init]
+  · intro c x; simp [Disk.col, Spec.init, akeys]
   · intro n; simp [Disk.col, akeys]
   · intro h; simp [Spec.init]
   · intro s; simp [Spec.init]
   · intro h ops hg; simp [Spec.init] at hg
   · intro s ops hg; simp [Spec.init] at hg
 
-theorem step_sim (be : Backend) (E : Enc κ δ ε) (kindOf : Nat → Kind) (hE : EncOk be E kindOf)
-    (db : Db) (sp : Spec κ δ ε) (hR : Rel be E kindOf db sp) (c : Cmd κ δ ε)
-    (hc : CmdOk be E kindOf c) :
-    Rel be E kindOf (mstep be E db c).2 (sstep sp c).2 ∧
+theorem step_sim (be : Backend) (E : Enc κ δ ε) (hE : EncOk be E)
+    (db : Db) (sp : Spec κ δ ε) (hR : Rel be E db sp) (c : Cmd κ δ ε)
+    (hc : CmdOk be E c) :
+    Rel be E (mstep be E db c).2 (sstep sp c).2 ∧
       ObsMatch E c.col (mstep be E db c).1 (sstep sp c).1 := by
-  have hlen : ∀ c k, (E.encK c k).length < 2 ^ 64 := fun c k => by
+  have hlen : ∀ c k, (E.encSK c k).length < 2 ^ 64 := fun c k => by
     have := hE.lenK c k
     omega
   cases c with
@@ -60,7 +60,8 @@ theorem step_sim (be : Backend) (E : Enc κ δ ε) (kindOf : Nat → Kind) (hE :
       · cases hg; simp at hop
       · exact hR.sok s' ops hg op hop
   | bop h op =>
-    obtain ⟨hkind, hfit⟩ := hc
+    have hfit := hc
+    simp only [CmdOk] at hfit
     simp only [mstep, sstep, batchWrite]
     have hb := hR.batches h
     cases hs : aget sp.batches h with
@@ -73,8 +74,8 @@ theorem step_sim (be : Backend) (E : Enc κ δ ε) (kindOf : Nat → Kind) (hE :
       rw [hs] at hb
       simp only [Option.map_some] at hb
       obtain ⟨db1, hres, hb1, hs1, hd1, hc1⟩ :=
-        resolve_eq be kindOf db _ _ hR.cache (opParts_kind be E kindOf op hkind)
-      simp only [hb, hres, badKey_opParts be E kindOf hE op hfit, Bool.false_eq_true, if_false]
+        resolve_eq be db (opParts be E op).1 (opParts be E op).2.1 hE.byKind hR.cache
+      simp only [hb, hres, badKey_opParts be E hE op hfit, Bool.false_eq_true, if_false]
       refine ⟨⟨hc1, relD_congr hd1 hR.disk, ?_, ?_, ?_, hR.sok⟩, trivial⟩
       · intro x
         simp only [aget_aset, hb1]
@@ -92,10 +93,11 @@ theorem step_sim (be : Backend) (E : Enc κ δ ε) (kindOf : Nat → Kind) (hE :
           · exact hR.bok h lops hs o ho
           · simp only [List.mem_singleton] at ho
             subst ho
-            exact ⟨hkind, hfit⟩
+            exact hfit
         · exact hR.bok h' ops hg o ho
   | sop s op =>
-    obtain ⟨hkind, hfit⟩ := hc
+    have hfit := hc
+    simp only [CmdOk] at hfit
     simp only [mstep, sstep, sbufWrite]
     have hb := hR.sbufs s
     cases hs : aget sp.sbufs s with
@@ -108,7 +110,7 @@ theorem step_sim (be : Backend) (E : Enc κ δ ε) (kindOf : Nat → Kind) (hE :
       rw [hs] at hb
       simp only [Option.map_some] at hb
       have hsok : ∀ s' ops, aget (aset sp.sbufs s (lops ++ [op])) s' = some ops →
-          ∀ o ∈ ops, OpOk be E kindOf o := by
+          ∀ o ∈ ops, OpOk be E o := by
         intro s' ops hg o ho
         rw [aget_aset] at hg
         split at hg
@@ -117,13 +119,13 @@ theorem step_sim (be : Backend) (E : Enc κ δ ε) (kindOf : Nat → Kind) (hE :
           · exact hR.sok s lops hs o ho
           · simp only [List.mem_singleton] at ho
             subst ho
-            exact ⟨hkind, hfit⟩
+            exact hfit
         · exact hR.sok s' ops hg o ho
       simp only [hb]
       cases hearly : be.sbufEarly with
       | true =>
         obtain ⟨db1, hres, hb1, hs1, hd1, hc1⟩ :=
-          resolve_eq be kindOf db _ _ hR.cache (opParts_kind be E kindOf op hkind)
+          resolve_eq be db (opParts be E op).1 (opParts be E op).2.1 hE.byKind hR.cache
         simp only [if_true, hres]
         refine ⟨⟨hc1, relD_congr hd1 hR.disk, ?_, ?_, hR.bok, hsok⟩, trivial⟩
         · intro x
@@ -166,7 +168,7 @@ theorem step_sim (be : Backend) (E : Enc κ δ ε) (kindOf : Nat → Kind) (hE :
         simp only [Option.map_some] at hsb
         simp only [hb, hsb]
         obtain ⟨db', hrun, hbs, hss, hds, hcs⟩ :=
-          consumeLoop_ok be E kindOf hE h sops (hR.sok s sops h2)
+          consumeLoop_ok be E hE h sops (hR.sok s sops h2)
             { db with sbufs := adel db.sbufs s } (lops.map (encW be E)) hR.cache hb
         rw [hrun]
         refine ⟨⟨hcs, relD_congr hds hR.disk, ?_, ?_, ?_, ?_⟩, trivial⟩
@@ -209,7 +211,7 @@ theorem step_sim (be : Backend) (E : Enc κ δ ε) (kindOf : Nat → Kind) (hE :
       simp only [Option.map_some] at hb
       simp only [hb]
       refine ⟨⟨hR.cache, ?_, ?_, hR.sbufs, ?_, hR.sok⟩, trivial⟩
-      · exact foldl_applyOp_rel be E kindOf hE lops (fun o ho => (hR.bok h lops hs o ho).1)
+      · exact foldl_applyOp_rel be E hE lops
           db.disk (sp.wide, sp.sets) hR.disk
       · intro x
         simp only [aget_adel]
@@ -246,35 +248,37 @@ theorem step_sim (be : Backend) (E : Enc κ δ ε) (kindOf : Nat → Kind) (hE :
         · cases hg
         · exact hR.bok h' ops hg o ho
   | get c d k =>
-    obtain ⟨hkind, hfit⟩ := hc
-    obtain ⟨db1, hres, hb1, hs1, hd1, hc1⟩ := resolve_eq be kindOf db c .wide hR.cache hkind
+    have hfit := hc
+    simp only [CmdOk] at hfit
+    obtain ⟨db1, hres, hb1, hs1, hd1, hc1⟩ := resolve_eq be db c .wide hE.byKind hR.cache
     simp only [mstep, sstep, get, hres, hfit, Bool.false_eq_true, if_false]
     refine ⟨⟨hc1, relD_congr hd1 hR.disk, ?_, ?_, hR.bok, hR.sok⟩, ?_⟩
     · intro x; rw [hb1]; exact hR.batches x
     · intro x; rw [hs1]; exact hR.sbufs x
     · simp only [ObsMatch]
       rw [hd1]
-      exact hR.disk.wide c d k hkind
+      exact hR.disk.wide c d k
   | scan c k =>
-    obtain ⟨hkind, hfit⟩ := hc
-    obtain ⟨db1, hres, hb1, hs1, hd1, hc1⟩ := resolve_eq be kindOf db c .set hR.cache hkind
+    have hfit := hc
+    simp only [CmdOk] at hfit
+    obtain ⟨db1, hres, hb1, hs1, hd1, hc1⟩ := resolve_eq be db c .set hE.byKind hR.cache
     simp only [mstep, sstep, scan, hres, hfit, Bool.false_eq_true, if_false]
     refine ⟨⟨hc1, relD_congr hd1 hR.disk, ?_, ?_, hR.bok, hR.sok⟩, ?_⟩
     · intro x; rw [hb1]; exact hR.batches x
     · intro x; rw [hs1]; exact hR.sbufs x
     · simp only [ObsMatch, Cmd.col]
-      have hp : allFF (setPrefix (E.encK c k)) = false := setPrefix_not_allFF _ (hE.lenK c k)
+      have hp : allFF (setPrefix (E.encSK c k)) = false := setPrefix_not_allFF _ (hE.lenK c k)
       refine ⟨?_, ?_⟩
       rotate_left
       · -- each member once
         apply nodup_map_of_inj_on
         · intro x hx y hy hxy
           rw [mem_scanKeys _ _ _ _ hp, hd1] at hx hy
-          obtain ⟨k1, e1, rfl, _⟩ := (hR.disk.sets c hkind x).mp hx.1
-          obtain ⟨k2, e2, rfl, _⟩ := (hR.disk.sets c hkind y).mp hy.1
-          have h1 := hE.injK c hkind _ _
+          obtain ⟨k1, e1, rfl, _⟩ := (hR.disk.sets c x).mp hx.1
+          obtain ⟨k2, e2, rfl, _⟩ := (hR.disk.sets c y).mp hy.1
+          have h1 := hE.injK c _ _
             ((setPrefix_prefix_setKey_iff _ _ _ (hlen _ _) (hlen _ _)).mp hx.2)
-          have h2 := hE.injK c hkind _ _
+          have h2 := hE.injK c _ _
             ((setPrefix_prefix_setKey_iff _ _ _ (hlen _ _) (hlen _ _)).mp hy.2)
           subst h1
           subst h2
@@ -291,20 +295,20 @@ theorem step_sim (be : Backend) (E : Enc κ δ ε) (kindOf : Nat → Kind) (hE :
       · rintro ⟨x, hx, rfl⟩
         rw [mem_scanKeys _ _ _ _ hp, hd1] at hx
         obtain ⟨hxk, hpre⟩ := hx
-        obtain ⟨k', e, rfl, hs⟩ := (hR.disk.sets c hkind x).mp hxk
-        have hkk : E.encK c k = E.encK c k' :=
+        obtain ⟨k', e, rfl, hs⟩ := (hR.disk.sets c x).mp hxk
+        have hkk : E.encSK c k = E.encSK c k' :=
           (setPrefix_prefix_setKey_iff _ _ _ (hlen _ _) (hlen _ _)).mp hpre
-        have := hE.injK c hkind _ _ hkk
+        have := hE.injK c _ _ hkk
         subst this
         exact ⟨e, splitMember_setKey _ _ (hlen _ _), hs⟩
       · rintro ⟨e, rfl, hs⟩
-        refine ⟨setKey (E.encK c k) (E.encE c e), ?_, splitMember_setKey _ _ (hlen _ _)⟩
+        refine ⟨setKey (E.encSK c k) (E.encE c e), ?_, splitMember_setKey _ _ (hlen _ _)⟩
         rw [mem_scanKeys _ _ _ _ hp, hd1]
-        exact ⟨(hR.disk.sets c hkind _).mpr ⟨k, e, rfl, hs⟩, List.prefix_append _ _⟩
+        exact ⟨(hR.disk.sets c _).mpr ⟨k, e, rfl, hs⟩, List.prefix_append _ _⟩
   | reopen =>
     simp only [mstep, sstep, reopen]
     refine ⟨⟨?_, hR.disk, ?_, ?_, ?_, ?_⟩, trivial⟩
-    · intro id n h; simp at h
+    · intro id kind n h; simp at h
     · intro x; simp
     · intro x; simp
     · intro h ops hg; simp at hg
@@ -326,15 +330,15 @@ def AllMatch (E : Enc κ δ ε) : List (Cmd κ δ ε) → List MObs → List (SO
   | c :: cs, m :: ms, s :: ss => ObsMatch E c.col m s ∧ AllMatch E cs ms ss
   | _, _, _ => False
 
-theorem run_sim (be : Backend) (E : Enc κ δ ε) (kindOf : Nat → Kind) (hE : EncOk be E kindOf)
+theorem run_sim (be : Backend) (E : Enc κ δ ε) (hE : EncOk be E)
     (cmds : List (Cmd κ δ ε)) :
-    ∀ (db : Db) (sp : Spec κ δ ε), Rel be E kindOf db sp → (∀ c ∈ cmds, CmdOk be E kindOf c) →
+    ∀ (db : Db) (sp : Spec κ δ ε), Rel be E db sp → (∀ c ∈ cmds, CmdOk be E c) →
       AllMatch E cmds (mrun be E db cmds) (srun sp cmds) := by
   induction cmds with
   | nil => intro db sp _ _; trivial
   | cons c cs ih =>
     intro db sp hR hok
-    obtain ⟨hR', hobs⟩ := step_sim be E kindOf hE db sp hR c (hok c List.mem_cons_self)
+    obtain ⟨hR', hobs⟩ := step_sim be E hE db sp hR c (hok c List.mem_cons_self)
     exact ⟨hobs, ih _ _ hR' (fun c' hc' => hok c' (List.mem_cons_of_mem _ hc'))⟩
 
 end
